@@ -152,7 +152,8 @@ Proof using HW.
     apply (host_set_post_pn u u' (HDomain [])); [|exact K]. apply P. intros Ha. exact (X1 Ha Hi).
   - destruct (q_host_port sch rem) as [np|] eqn:Eq; [|exact (host_set_post_pn u u' h P K)].
     destruct P as (_ & _ & Es & _ & _ & Ep & _). intros sch' p Hs' Hp. rewrite Es, Hs in Hs'. inversion Hs'; subst sch'.
-    rewrite Ep in Hp. subst np. exact (q_host_port_pn sch rem p Eq).
+    rewrite Ep in Hp. rewrite Hp in Eq. exact (q_host_port_pn sch rem p Eq).
+
 Qed.
 
 Lemma q_set_hostname_pn u v u' st : wfh u -> host_bad u u' = false ->
@@ -185,7 +186,7 @@ Proof using.
     { unfold path_empty_at_end in He. apply N.eqb_eq in He. unfold path_starts_with_2slash. cbn [ser set_ser path_start].
       rewrite <- He. rewrite nskipn_app_exact. reflexivity. }
     exact (proj2 (proj2 (proj2 (proj2 (proj2 (proj2 (proj2 (Hok' eq_refl Hh X1 X2)))))))).
-  - exact (proj2 (proj2 (proj2 (proj2 (proj2 (proj2 (proj2 (Hok eq_refl eq_refl He G)))))))).
+  - exact (proj2 (proj2 (proj2 (proj2 (proj2 (proj2 (proj2 (Hok eq_refl eq_refl eq_refl G)))))))).
 Qed.
 
 (* ---------- set_port, set_scheme and the rest ---------- *)
@@ -207,19 +208,99 @@ Proof using.
   intros sch' x Hs' Hx. rewrite Es, Hs in Hs'. inversion Hs'; subst sch'. rewrite Hx in Ep. exact (parse_port_pn _ _ _ _ _ Ep).
 Qed.
 
-Lemma set_scheme_pn u s u' st : wfh u -> set_scheme dbg u s = Some (u', st) -> PN u'.
-Proof using.
-  intros K H. destruct st; [|rewrite (set_scheme_atomic dbg u s u' _ H) by discriminate ..].
-  - destruct (frame_all dbg hp hpo hd u K) as (_ & _ & _ & _ & _ & F & _).
-    destruct (get_all dbg hd u K) as (_ & _ & _ & _ & _ & Gt & _).
-    destruct (couple_all dbg hp hpo hd u K) as (_ & _ & C).
-    destruct (F s u' H) as (_ & _ & _ & _ & Fp). destruct (Gt s u' H) as (new & rem & Eps & Es).
-    destruct (port u) as [p|] eqn:Ep.
-    + pose proof (C s u' new rem p H Eps Ep) as Ep'.
-      intros sch x Hs Hx. rewrite Es in Hs. inversion Hs; subst sch. rewrite Hx in Ep'.
-      destruct (opt_eqb (Some p) (default_port new)) eqn:Eo; [discriminate|]. inversion Ep'; subst x.
-      exact (opt_eqb_some_false _ _ Eo).
-    + apply pn_none. destruct Fp as [Fp|Fp]; [rewrite Fp; exact Ep | exact Fp].
-Abort.
+Lemma set_scheme_pn u s u' st : wfh u -> set_scheme dbg u s = Some (u', st) -> PN u -> PN u'.
+Proof using hp hpo hd.
+  intros K H K0. destruct st; [|rewrite (set_scheme_atomic dbg u s u' _ H) by discriminate; exact K0 ..].
+  destruct (frame_all dbg hp hpo hd u K) as (_ & _ & _ & _ & _ & F & _).
+  destruct (get_all dbg hd u K) as (_ & _ & _ & _ & _ & Gt & _).
+  destruct (couple_all dbg hp hpo hd u K) as (_ & _ & C).
+  destruct (F s u' H) as (_ & _ & _ & _ & Fp). destruct (Gt s u' H) as (new & rem & Eps & Es).
+  destruct (port u) as [p|] eqn:Ep.
+  - pose proof (C s u' new rem p H Eps eq_refl) as Ep'.
+    intros sch x Hs Hx. rewrite Es in Hs. inversion Hs; subst sch. rewrite Hx in Ep'.
+    destruct (opt_eqb (Some p) (default_port new)) eqn:Eo; [discriminate|]. inversion Ep'; subst x.
+    exact (opt_eqb_some_false _ _ Eo).
+  - apply pn_none. destruct Fp as [Fp|Fp]; exact Fp.
+Qed.
+
+(* ---------- one step ---------- *)
+Theorem pn_step u o u' : IpDisp hd -> wfh u -> op_args_ok o -> excl03 u o u' = false ->
+  apply_op dbg hp hpo hd u o = Some u' -> PN u -> PN u'.
+Proof using HW.
+  intros HIP K Ha G H K0.
+  destruct (frame_all dbg hp hpo hd u K) as (F1 & F2 & _ & F4 & F5 & _).
+  destruct o; cbn [apply_op excl03 op_args_ok] in H, G, Ha; try (apply omf_some in H; destruct H as [st H]).
+  - destruct (F1 _ _ H) as [[(Es & _ & _ & _ & Ep) _] _]. exact (pn_same u u' Es Ep K0).
+  - destruct (F2 _ _ Ha H) as [[(Es & _ & _ & _ & Ep) _] _]. exact (pn_same u u' Es Ep K0).
+  - apply orb_false_iff in G. destruct G as [G G3]. apply orb_false_iff in G. destruct G as [G1 G2].
+    apply negb_false_iff in G1. apply auth_end_b_ok in G1.
+    apply (set_path_pn u p u' K Ha G1); [|exact G3 | exact H | exact K0].
+    intros Ho. rewrite Ho in G2. cbn [andb] in G2. apply negb_false_iff in G2. exact G2.
+  - exact (set_port_pn u p u' st K Ha H K0).
+  - destruct h as [x|].
+    + exact (set_host_some_pn u x u' st K G H K0).
+    + exact (set_host_none_pn u u' st K G H K0).
+  - exact (set_ip_host_pn u h u' st K (HIP h Ha) G H K0).
+  - destruct st; [|rewrite (set_password_atomic dbg u p u' _ H) by discriminate; exact K0 ..].
+    destruct (F4 _ _ H) as (Es & _ & _ & Ep & _). exact (pn_same u u' Es Ep K0).
+  - destruct st; [|rewrite (set_username_atomic dbg u s u' _ H) by discriminate; exact K0 ..].
+    destruct (F5 _ _ H) as (Es & _ & _ & Ep & _). exact (pn_same u u' Es Ep K0).
+  - exact (set_scheme_pn u s u' st K H K0).
+  - exact (session_pn u ops u' st K Ha G H K0).
+  - unfold q_set_protocol in H. cbv zeta in H. exact (set_scheme_pn u _ u' st K H K0).
+  - destruct st; [|rewrite (set_username_atomic dbg u s u' _ H) by discriminate; exact K0 ..].
+    destruct (F5 _ _ H) as (Es & _ & _ & Ep & _). exact (pn_same u u' Es Ep K0).
+  - unfold q_set_password in H.
+    destruct st; [|rewrite (set_password_atomic dbg u _ u' _ H) by discriminate; exact K0 ..].
+    destruct (F4 _ _ H) as (Es & _ & _ & Ep & _). exact (pn_same u u' Es Ep K0).
+  - exact (q_set_host_pn u s u' st K G H K0).
+  - exact (q_set_hostname_pn u s u' st K G H K0).
+  - exact (q_set_port_pn u s u' st K H K0).
+  - apply orb_false_iff in G. destruct G as [G1 G3]. apply negb_false_iff in G1. apply auth_end_b_ok in G1.
+    exact (q_set_pathname_pn u s u' K Ha G1 G3 H K0).
+  - unfold q_set_search in H.
+    assert (str_arg_ok (match s with [] => None | 63 :: r => Some r | _ => Some s end)) as Hq.
+    { destruct s as [|c r]; [exact I|]. destruct (N.eq_dec c 63) as [->|Hc].
+      - exact (usv_tail03 _ _ Ha).
+      - unfold str_arg_ok. destruct c as [|q]; [exact Ha|]. do 6 (destruct q as [q|q|]; try exact Ha). contradiction. }
+    destruct (F2 _ _ Hq H) as [[(Es & _ & _ & _ & Ep) _] _]. exact (pn_same u u' Es Ep K0).
+  - unfold q_set_hash in H. destruct (F1 _ _ H) as [[(Es & _ & _ & _ & Ep) _] _]. exact (pn_same u u' Es Ep K0).
+Qed.
 
 End Steps.
+
+(* ---------- the file records, and histories ---------- *)
+Lemma file_rec_pn P : PN (file_rec P).
+Proof. apply pn_none. reflexivity. Qed.
+
+Section Reach.
+Variable dbg : bool.
+Variable hp hpo : list N -> result host.
+Variable hd : host -> list N.
+
+(* the parser never stores a default port: NOT proved here (see the header) *)
+Definition ParsePN : Prop :=
+  forall ovr base input u, match base with Some b => wf_b b = true /\ PN b | None => True end ->
+    parse_url dbg hp hpo hd ovr base input = POk u -> PN u.
+
+Theorem reach03a_pn : HostWf hp hpo hd -> IpDisp hd -> ParsePN -> forall u, reach03a dbg hp hpo hd u -> PN u.
+Proof.
+  intros HW HIP HP u R.
+  assert (wfh u /\ PN u) as [_ X]; [|exact X].
+  induction R as [ovr input u Hp | ovr b input u Rb IHb Hb Hp | p u Hb H | p u Hb H | u o u' R IH Ha G H].
+  - split; [exact (reach03a_wfh dbg hp hpo hd HW HIP u (RA_parse dbg hp hpo hd ovr input u Hp))|].
+    exact (HP ovr None input u I Hp).
+  - split; [exact (reach03a_wfh dbg hp hpo hd HW HIP u (RA_join dbg hp hpo hd ovr b input u Rb Hb Hp))|].
+    destruct IHb as [[Wb _] Pb]. exact (HP ovr (Some b) input u (conj Wb Pb) Hp).
+  - split; [exact (from_file_path_wfh p u Hb H)|].
+    destruct (path_is_absolute p) eqn:Ea.
+    + rewrite (from_file_path_spec p Hb Ea) in H. inversion H. apply file_rec_pn.
+    + rewrite (proj1 (from_file_path_rel p Ea)) in H. discriminate.
+  - split; [exact (from_directory_path_wfh p u Hb H)|].
+    destruct (path_is_absolute p) eqn:Ea.
+    + rewrite (from_directory_path_spec p Hb Ea) in H. inversion H. apply file_rec_pn.
+    + rewrite (proj2 (from_file_path_rel p Ea)) in H. discriminate.
+  - destruct IH as [Ku Pu]. destruct (known03_false u o u' G) as [->|G']; [split; assumption|].
+    split; [exact (step03 dbg hp hpo hd HW u o u' HIP Ku Ha G' H) | exact (pn_step dbg hp hpo hd HW u o u' HIP Ku Ha G' H Pu)].
+Qed.
+End Reach.
